@@ -2173,6 +2173,11 @@ func (ctx Ctx) callExprInterface(cvs []coq.Decl, r *ast.CallExpr) []coq.Decl {
 				cv := coq.StructToInterface{Struct: structName, Interface: interfaceName, Methods: methods}
 				if len(cv.Coq(true)) > 1 && len(cv.MethodList()) > 0 {
 					cvs = append(cvs, cv)
+					// the conversion mentions the interface and the struct's methods
+					ctx.dep.addDep(interfaceName)
+					for _, m := range cv.MethodList() {
+						ctx.dep.addDep(coq.MethodName(structName, m))
+					}
 				}
 			}
 		}
